@@ -302,7 +302,7 @@ def spec() -> Spec:
         generate=generate,
         extract=extract,
         nontrivial=nontrivial,
-        budget={"quick": 200, "thorough": 3000},
+        budget={"quick": 144, "thorough": 2400},
         search_budget={"quick": 500, "thorough": 6000},
         per_case_timeout=90.0,
         rule="8 shapes in rotation: payload sizes around a lowered cap (cap-1, cap, cap+1, 0, 2^32..2^64, lying lengths, duplicate "
